@@ -84,7 +84,7 @@ def shapeOK : Bool :=
   -- `register_op` walks the known types in registration order (a list), not a set of types
   Generated.c13KnownTypesOrdered && Generated.c13ClosestPicksMin &&
   Generated.c13ClosestDropsSupers && Generated.c13MatchingDeepest &&
-  Generated.c13FuzzyGuardsExisting &&
+  Generated.c13FuzzyGuardsExisting && Generated.c13FuzzyReregisterMoves &&
   Generated.c13GlommerOwnRegistry && Generated.c13GlommerCopiesOps &&
   Generated.c13GlommerDelegates &&
   Generated.c13ModuleDelegates && Generated.c13ModuleRegistryDefault && duckOK && autoOK && setupOK
